@@ -47,6 +47,28 @@ def scan_module_global(tree, rel):
                 if cname not in IMMUTABLE_CALLS:
                     out.append(('default:%s' % fn.name, fn.lineno, 'default argument `%s` is one object built when the function is defined and shared by every call that omits the '
                                 'argument: monitors created that way share their state' % ast.unparse(d), fn.name))
+        # a memoising decorator turns "returns a new object" into "returns the one object built at the first call": a hidden module-level singleton
+        for dec in fn.decorator_list:
+            dn = ast.unparse(dec.func if isinstance(dec, ast.Call) else dec)
+            if dn.split('.')[-1] in ('lru_cache', 'cache', 'cached', 'memoize', 'singleton'):
+                rets = [r.value for r in ast.walk(fn) if isinstance(r, ast.Return) and r.value is not None]
+                defs_ = {}
+                for a_ in ast.walk(fn):
+                    if isinstance(a_, ast.Assign) and len(a_.targets) == 1 and isinstance(a_.targets[0], ast.Name):
+                        defs_[a_.targets[0].id] = a_.value
+                builds = False
+                for r in rets:
+                    v = defs_.get(r.id, r) if isinstance(r, ast.Name) else r
+                    if _is_mutable_expr(v):
+                        builds = True
+                    elif isinstance(v, ast.Call):
+                        f_ = v.func
+                        cname = f_.id if isinstance(f_, ast.Name) else (f_.attr if isinstance(f_, ast.Attribute) else None)
+                        if cname not in IMMUTABLE_CALLS and not (cname or '').endswith('_factory'):
+                            builds = True        # X(...) / factory(V)(): an object; a bare factory(V) returns a class and may be cached
+                if builds:
+                    out.append(('cached:%s' % fn.name, fn.lineno, '`@%s` on a function that builds and returns an object: every caller gets the same object (one interpreter for all '
+                                'specifications created through it -- the second specification\'s set_ast() replaces the first one\'s tree)' % dn, fn.name))
         local = {a.arg for a in fn.args.args + fn.args.kwonlyargs}
         for n in ast.walk(fn):
             if isinstance(n, ast.Name) and isinstance(n.ctx, ast.Store):
@@ -200,7 +222,7 @@ def scan_module_setiter(tree, rel, set_attrs):
 def run_global(ix, rep, prefix='rtamt', rule='R-GLOBAL'):
     n = 0
     for m in sorted(ix.modules.values(), key=lambda m: m.name):
-        if m.name.startswith('rtamt.antlr.parser'):
+        if m.name.startswith('rtamt.antlr.parser') or not m.name.startswith(prefix):
             continue  # generated code: the serialized ATN helpers are module-level by construction and never written
         n += 1
         rep.unit(m.rel)
@@ -237,7 +259,9 @@ def fixture_selfcheck(rep):
     tree = ast.parse(open(p).read())
     g = scan_module_global(tree, 'fixture')
     s = scan_module_setiter(tree, 'fixture', set_typed_attrs(tree))
-    want_g = {'modstate:CACHE', 'global:COUNTER', 'default:collect', 'clsstate:Shared.table'}
+    want_g = {'modstate:CACHE', 'global:COUNTER', 'default:collect', 'clsstate:Shared.table', 'cached:the_interpreter'}
+    if any(h[0] == 'cached:the_interpreter_class' for h in g):
+        raise AnalysisError('negative fixture matched: a cached class factory was reported')
     want_s = {'setiter:self.free_vars', 'order-by-id'}
     got_g = {h[0] for h in g}
     got_s = {h[0] for h in s}
